@@ -9,6 +9,7 @@ import (
 	"strings"
 
 	"github.com/buildkite/go-pipeline/ordered"
+	"github.com/buildkite/go-pipeline/warning"
 	"gopkg.in/yaml.v3"
 	"verifharness/sx"
 )
@@ -369,6 +370,21 @@ func c16merges(rng *sx.Rng, n int) {
 	}
 }
 
+// a field type that unmarshals itself and reports a message-only warning
+type c16warnField struct{ V string }
+
+func (f *c16warnField) UnmarshalOrdered(src any) error {
+	f.V = fmt.Sprint(src)
+	return warning.New("noted, not fatal")
+}
+
+type c16warnTarget struct {
+	First string         `yaml:"first"`
+	Noted c16warnField   `yaml:"noted"`
+	Last  string         `yaml:"last"`
+	Rest  map[string]any `yaml:",inline"`
+}
+
 // c16edges: null zeroes what it is unmarshalled into, whatever that is; nil and non-pointer destinations are
 // refused with the documented errors (a fixed table)
 func c16edges() {
@@ -411,6 +427,22 @@ func c16edges() {
 		e1, e2, e3 := ordered.Unmarshal(nil, &st), ordered.Unmarshal(nil, &sl), ordered.Unmarshal(nil, &an)
 		if e1 != nil || e2 != nil || e3 != nil || st != "" || sl != nil || an != nil {
 			return fmt.Sprintf("got %q %v %v (errors %v %v %v), want zero values", st, sl, an, e1, e2, e3)
+		}
+		return ""
+	})
+	try("a field that reports a warning does not stop the others", func() string {
+		src := ordered.NewMap[string, any](0)
+		src.Set("first", "f")
+		src.Set("noted", "n")
+		src.Set("last", "l")
+		src.Set("left", "over")
+		var dst c16warnTarget
+		err := ordered.Unmarshal(src, &dst)
+		if err == nil || !warning.Is(err) {
+			return fmt.Sprintf("err = %v, want the field's warning", err)
+		}
+		if dst.First != "f" || dst.Noted.V != "n" || dst.Last != "l" || dst.Rest["left"] != "over" || len(dst.Rest) != 1 {
+			return fmt.Sprintf("got %+v (err %v): every key must reach its destination although one field reported a warning", dst, err)
 		}
 		return ""
 	})
